@@ -125,6 +125,25 @@ func cmpT(n *tnode, x any, seen map[any]bool, path string) error {
 		if o.Count() != len(n.fields) {
 			return errf("%s: object has %d fields, reference model %d (%s vs %s)", path, o.Count(), len(n.fields), clip(o.String(), 150), n.toV().Show())
 		}
+		// what the object lists and iterates over must be the same field set (an index kept next to the map)
+		listed := o.Keys()
+		visited := 0
+		o.ForEach(func(k string, _ any) {
+			if _, ok := n.fields[k]; ok {
+				visited++
+			} else {
+				visited = -1 << 30
+			}
+		})
+		if listed.Count() != len(n.fields) || visited != len(n.fields) {
+			return errf("%s: Keys() lists %s and ForEach visits %d known fields, the reference model has %d fields (%s)", path, clip(listed.String(), 150), visited, len(n.fields), n.toV().Show())
+		}
+		for i := 0; i < listed.Count(); i++ {
+			k, _ := listed.Get(i).(string)
+			if _, ok := n.fields[k]; !ok {
+				return errf("%s: Keys() lists %+q which the reference model does not have (%s)", path, k, n.toV().Show())
+			}
+		}
 		for k, e := range n.fields {
 			if !o.KeyExists(k) {
 				return errf("%s: key %+q missing (object %s, reference %s)", path, k, clip(o.String(), 150), n.toV().Show())
